@@ -148,20 +148,25 @@ def step(ym: int, yn: int, yp: int, pl: int, z: int, op: int, op2: int) -> bool:
     pre: 0 <= op < SHARD["nops"] and 0 <= op2 < SHARD["nops2"]
     post: __return__
     """
-    y0s = (pick(ym, 3), pick(yn, 3), pick(yp, NPAY))
-    p = pick(pl, 9)
-    place = (p // 3, p % 3)
-    zz = pick(z, SHARD["nz"])
-    if SHARD["full_y1"]:
-        y1s = (SHARD["y1m"], zz // NPAY, zz % NPAY)
+    k2 = SHARD["nops2"] > 1
+    if k2:
+        # K = 2 runs on a reduced pre-state set: y0 attached, named 'a', payload a block or proxy (or any payload in the
+        # thorough tier); three placements; y1 in one (quick) or three representative states
+        y0s = (1 + pick(ym, 2), 1, (pick(yp, NPAY) if SHARD.get("k2_full") else 3 + pick(yp, 2)))
+        place = ((1, 1), (1, 2), (0, 1))[pick(pl, 3)]
+        y1s = tuple(Y1_QUICK[pick(z, SHARD["nz"])])
     else:
-        y1s = tuple(Y1_QUICK[zz])
+        y0s = (pick(ym, 3), pick(yn, 3), pick(yp, NPAY))
+        p = pick(pl, 9)
+        place = (p // 3, p % 3)
+        zz = pick(z, SHARD["nz"])
+        if SHARD["full_y1"]:
+            y1s = (SHARD["y1m"], zz // NPAY, zz % NPAY)
+        else:
+            y1s = tuple(Y1_QUICK[zz])
     opis = [SHARD["op_lo"] + pick(op, SHARD["nops"])]
-    if SHARD["nops2"] > 1:
+    if k2:
         opis.append(pick(op2, SHARD["nops2"]))
-        # K = 2 runs on a reduced pre-state set: y0 attached, named 'a'; three placements
-        if y0s[0] == 0 or y0s[1] != 1 or place not in ((1, 1), (1, 2), (0, 1)):
-            return done()
     with untraced():
         why, names = run(y0s, y1s, place, opis)
     if why is not None:
@@ -191,7 +196,7 @@ def shards(tier):
                         "timeout": 900, "twin": "first", "cover": "first"})
         # two operations in sequence on a reduced pre-state set (leave-and-return sequences)
         for lo in range(0, N_OPS, 2):
-            out.append({"fn": "step", "consts": {"full_y1": 0, "nz": len(Y1_QUICK), "op_lo": lo, "nops": min(2, N_OPS - lo), "nops2": N_OPS, "b0size": 1},
+            out.append({"fn": "step", "consts": {"full_y1": 0, "nz": 1, "op_lo": lo, "nops": min(2, N_OPS - lo), "nops2": N_OPS, "b0size": 1},
                         "timeout": 900, "twin": False, "cover": False})
     else:
         for y1m in range(3):
@@ -199,6 +204,6 @@ def shards(tier):
                 out.append({"fn": "step", "consts": {"full_y1": 1, "y1m": y1m, "nz": 3 * NPAY, "op_lo": lo, "nops": min(chunk, N_OPS - lo), "nops2": 1, "b0size": (lo // chunk + y1m) % 2},
                             "timeout": 1800, "twin": "first", "cover": "first"})
         for lo in range(0, N_OPS, 1):
-            out.append({"fn": "step", "consts": {"full_y1": 0, "nz": len(Y1_QUICK), "op_lo": lo, "nops": 1, "nops2": N_OPS, "b0size": lo % 2},
+            out.append({"fn": "step", "consts": {"full_y1": 0, "nz": len(Y1_QUICK), "k2_full": 1, "op_lo": lo, "nops": 1, "nops2": N_OPS, "b0size": lo % 2},
                         "timeout": 1800, "twin": False, "cover": False})
     return out
